@@ -100,9 +100,23 @@ def canon_fs(f):
     return [[c.s, list(canon_atts(c.atts))] for c in f.chunks]
 
 
-def build_fs(runs):
-    """list of [text, atts-tuple] -> FmtStr with exactly these runs"""
-    return FmtStr(*[Chunk(s, atts_dict(tuple(a))) for s, a in runs])
+def build_fs(runs, share=None):
+    """list of [text, atts-tuple] -> FmtStr with exactly these runs.
+    share: equal runs (same text, same attributes) are ONE Chunk object occurring several times -- what f * n and
+    x + x produce -- instead of equal but distinct objects.  None: decided by a fixed parity rule on the runs, so
+    that both kinds of aliasing occur throughout every generated population (and a replay rebuilds the same)."""
+    if share is None:
+        share = (len(runs) + sum(len(s) for s, _ in runs)) % 2 == 0
+    if not share:
+        return FmtStr(*[Chunk(s, atts_dict(tuple(a))) for s, a in runs])
+    pool = {}
+    chunks = []
+    for s, a in runs:
+        k = (s, tuple(a))
+        if k not in pool:
+            pool[k] = Chunk(s, atts_dict(tuple(a)))
+        chunks.append(pool[k])
+    return FmtStr(*chunks)
 
 
 def coq_fs(runs):
